@@ -1176,6 +1176,12 @@ class SyncInterpreter(BaseInterpreter[TContext, TEvent]):
             if explicit_id
             else f"{self.id}:{key}:{uuid.uuid4()}"
         )
+        # ♻️ Reusing an explicit id supersedes the previous holder. Overwriting
+        #    the map entry alone orphaned the first child: it kept running
+        #    (timers, runner thread) but `stop()` could no longer reach it.
+        previous = self._actors.pop(actor_id, None)
+        if previous is not None:
+            previous.stop()
         child = SyncInterpreter(actor_machine)
         child.parent = self
         child.id = actor_id
